@@ -5,7 +5,9 @@ A director process applies one structural update per tick to two branches
 tick the hierarchy, the engine's bookkeeping, the published composite, what
 was invoked and what the observers saw are projected to the abstract state
 of Store.tla."""
+import contextlib
 import copy
+import io
 import random
 
 import vivarium  # noqa
@@ -120,10 +122,16 @@ class Director(Process):
 
 
 class Observer(Process):
-    """Glob port on the agents with one declared sub-variable, a plain port."""
+    """Glob port on the agents with one declared sub-variable, a plain port,
+    an output port and (watch) a plain port wired into compartment agents/a."""
+    defaults = {'watch': False}
+
     def ports_schema(self):
-        return {'ag': copy.deepcopy(GLOB), 'g': {'t': {'_default': 0, '_emit': True}},
-                'out': {'_output': True, 'w': {'_default': 0}}}
+        sch = {'ag': copy.deepcopy(GLOB), 'g': {'t': {'_default': 0, '_emit': True}},
+               'out': {'_output': True, 'w': {'_default': 0}}}
+        if self.parameters['watch']:
+            sch['w'] = {'x': dict(X_SCHEMA)}
+        return sch
 
     def next_update(self, timestep, states):
         LOG.append(('observer', copy.deepcopy(states)))
@@ -253,9 +261,12 @@ def run_history(ops, initial=(), parallel=False, via_composite=False):
     LOG = []
     director = Director({'script': list(ops)})
     director.par = parallel
-    processes = {'director': director, 'observer': Observer()}
+    watch = any(b == 'agents' and k == 'a' for b, k, _t, _x in initial)
+    processes = {'director': director, 'observer': Observer({'watch': watch})}
     topology = {'director': {'agents': ('agents',), 'pool': ('pool',)},
                 'observer': {'ag': ('agents',), 'g': ('glob',), 'out': ('outs',)}}
+    if watch:
+        topology['observer']['w'] = ('agents', 'a', 'v')
     steps, flow = {}, {}
     state = {'agents': {}, 'pool': {}}
     tree_tpl = {}
@@ -279,7 +290,8 @@ def run_history(ops, initial=(), parallel=False, via_composite=False):
         before = id_paths(eng)
         exc = None
         try:
-            eng.update(1)
+            with contextlib.redirect_stdout(io.StringIO()):
+                eng.update(1)
         except Exception as e:     # the store re-wraps exception types
             exc = '%s: %s' % (type(e).__name__, str(e)[:160])
         after = id_paths(eng)
@@ -304,8 +316,13 @@ def run_history(ops, initial=(), parallel=False, via_composite=False):
         rec['dview'] = {'agents': none, 'pool': none} if dview is None else \
             {'agents': view_x(dview.get('agents', none)), 'pool': view_x(dview.get('pool', none))}
         rec['oview'] = {'ag': none, 'keys': [], 'out': none} if oview is None else \
-            {'ag': view_x(oview.get('ag', none)), 'keys': sorted(oview.keys()),
+            {'ag': view_x(oview.get('ag', none)),
+             'keys': sorted(k for k in oview.keys() if k != 'w'),
              'out': oview['out'] if isinstance(oview.get('out'), dict) else none}
+        rec['watch'] = watch
+        w = (oview or {}).get('w', {}) if watch else {}
+        rec['wview'] = w if isinstance(w, dict) and all(isinstance(v, int) for v in w.values()) \
+            else none
         obs, ids = project(eng, ids)
         rec['obs'] = obs
         recs.append(rec)
